@@ -81,6 +81,12 @@ PlaceText(place, c) ==
     /\ g' = BPlace(g, place, c, NextName("u1"))
     /\ act' = [op |-> "place", place |-> place, c |-> c, nn |-> NextName("u1")]
 
+\* the name attribute removed / removed and set again, on the root or on its child
+NamePlace(place) ==
+    /\ Building /\ Family = "typed" /\ ~Placed /\ Len(g.el["u1"].attrs) = 0
+    /\ g' = BNamePlace(g, place, NextName("u1"))
+    /\ act' = [op |-> "nameplace", place |-> place, nn |-> NextName("u1")]
+
 (* ---- export and parse ------------------------------------------------------- *)
 Encode(enc, uni) ==
     IF enc.kind = "bin"
@@ -105,6 +111,7 @@ Next == \/ \E e \in Uuids, r \in Targets : AddScalarRef(e, r) /\ UNCHANGED <<pha
         \/ \E e \in Uuids, j \in 1..Len(AttrNames), r \in Targets : AppendRef(e, j, r) /\ UNCHANGED <<phase, file, out>>
         \/ \E t \in PlainTypes, sh \in Shapes, c \in Classes : AddValue(t, sh, c) /\ UNCHANGED <<phase, file, out>>
         \/ \E p \in {"aname", "ename", "etype", "cname", "ctype", "ncase"}, c \in Classes : PlaceText(p, c) /\ UNCHANGED <<phase, file, out>>
+        \/ \E p \in {"rdel", "rpop", "rclear", "cdel", "readd", "rreadd", "creadd"} : NamePlace(p) /\ UNCHANGED <<phase, file, out>>
         \/ \E enc \in Encs, uni \in Unis : Export(enc, uni)
         \/ Parse
 Spec == Init /\ [][Next]_vars
